@@ -200,6 +200,16 @@ def run(tier, seed):
                 job = diff.job_for(F, "s%d" % i, interp=spec)
                 extra = {"register": {"name": ["late", "lib%d" % i], "src": "(define-library (late lib%d) (export late-v) (begin (define late-v 1)))" % i}}
                 pos = 1 + (i // 3) % max(1, len(F) - 1)
+                nimp = 0
+                while nimp < len(forms) and forms[nimp].startswith("(import"):
+                    nimp += 1
+                others = [(l, t) for l, t in zip(L, libs) if [x.name for x in l[1]] not in (["lib", "counter"],) and "cyc" not in t]
+                if nimp >= 2 and others and (i // 3) % 2 == 0:
+                    # ... or a library that IS already registered (not the counter) is registered once more, with the same source, between two of
+                    # the program's import declarations: nothing a program can observe changes
+                    l, t = others[(i // 6) % len(others)]
+                    extra = {"register": {"name": [x.name for x in l[1]], "src": t}}
+                    pos = 1 + (i // 12) % (nimp - 1)
                 job["steps"].insert(pos, extra)
                 job["_extra_at"] = pos
                 jobs.append(job)
